@@ -699,7 +699,7 @@ var rawBroken = []string{"${v", "${}", "${v!}", "$((1+))", "$((", "${v:}", "${v-
 func genSub(t *rapid.T) Sub {
 	var s Sub
 	// environment: non-empty values only (an empty value means unset)
-	vals := []string{"val", "a b", " lead", "trail ", "a  b", "abcabc", "ABC", "x*y", "*", "a:b::c", "é€", "q'q", `b\s`, "d\"q", "$v", "~", "{a,b}", "-n", "a\tb", "/home/u"}
+	vals := []string{"val", "a b", " lead", "trail ", "a  b", "abcabc", "ABC", "x*y", "*", "a:b::c", "é€", "q'q", `b\s`, "d\"q", "$v", "~", "{a,b}", "-n", "a\tb", "/home/u", "one\ntwo", "\nlead", "x \n y", "trailnl\n"}
 	for _, name := range []string{"v", "w", "x", "A_1"} {
 		if rapid.IntRange(0, 2).Draw(t, "set") > 0 {
 			s.Env = append(s.Env, [2]string{name, rapid.SampledFrom(vals).Draw(t, "val")})
